@@ -136,7 +136,7 @@ class C17(core.Check):
 
     def continuation(self, rng):
         """includer in zone Z and region R; include; then a reference to R's local and more bytes in Z"""
-        zones = [{'name': 'ZC', 'start': 0x200, 'end': 0x2FF}]
+        zones = [{'name': 'ZC', 'start': 0x200, 'end': 0x2FF}, {'name': 'ZD', 'start': 0x400, 'end': 0x4FF}]
         isa = gen_prog.layout_isa(16, endian='big', zones=zones)
         main = [
             {'k': 'data', 'width': 1, 'vals': [0x01]},
@@ -154,8 +154,15 @@ class C17(core.Check):
             main.insert(4, {'k': 'data', 'width': 1, 'vals': [0x13]})
             inc += [{'k': 'label', 'name': '_shared'}, {'k': 'data', 'width': 1, 'vals': [0x22]},
                     {'k': 'data', 'width': 2, 'vals': [{'ref': '_shared@inc'}]}]
-        if rng.random() < 0.4:
+        r_ = rng.random()
+        if r_ < 0.25:
             inc += [{'k': 'memzone', 'name': 'ZC'}, {'k': 'data', 'width': 1, 'vals': [0x23]}]      # zone switch inside the include
+        elif r_ < 0.5:
+            inc += [{'k': 'memzone', 'name': 'ZD'}, {'k': 'data', 'width': 1, 'vals': [0x24, 0x25]}]
+        elif r_ < 0.7:
+            inc += [{'k': 'org', 'addr': rng.randrange(0x600, 0x680), 'zone_name': None}, {'k': 'data', 'width': 1, 'vals': [0x26]}]
+        elif r_ < 0.85:
+            inc += [{'k': 'org', 'addr': rng.randrange(0, 8), 'zone_name': 'ZD'}, {'k': 'data', 'width': 1, 'vals': [0x27]}]
         after = [{'k': 'data', 'width': 1, 'vals': [0x14]},
                  {'k': 'data', 'width': 2, 'vals': [{'ref': '.mine'}]},
                  {'k': 'data', 'width': 2, 'vals': [{'ref': 'host_reg'}]}]
